@@ -30,6 +30,8 @@ static rc::Gen<Op> c07_op()
 	    {3, op_gen(CONNECT, zero(), rng(0, 3), rng(0, 4), rng(0, 8), zero(), zero(), nojoin())},
 	    {3, op_gen(END, conn, rng(0, 3), zero(), zero(), zero(), zero(), jn)},
 	    {2, op_gen(FAULT, zero(), rng(3, 9), rng(0, 6), rng(0, 10), zero(), zero(), nojoin())},
+	    // more requests in flight to one owner than its routing table holds (c = 64: expanded by c07_gen): the surplus is refused
+	    {1, op_gen(CALL, conn, rc::gen::just(1), val, rc::gen::just(64), tmo, idmode(), nojoin())},
 	    {1, rc::gen::apply([](int conn, std::string s) { Op o; o.kind = BYTES; o.conn = conn; o.s = s; return o; }, conn, rc::gen::resize(30, rc::gen::container<std::string>(rc::gen::arbitrary<char>())))},
 	});
 }
@@ -47,7 +49,14 @@ static rc::Gen<Scenario> c07_gen()
 		for (int t : transports) { Op o; o.kind = CONNECT; o.a = t; sc.ops.push_back(o); }
 		{ Op o; o.kind = ADD; o.conn = 0; o.a = 0; o.b = 1; sc.ops.push_back(o); }
 		{ Op o; o.kind = ADD; o.conn = 0; o.a = 1; o.b = -1; sc.ops.push_back(o); }
-		for (auto &o : ops) sc.ops.push_back(o);
+		for (auto &o : ops) {
+			if (o.kind == CALL && o.c == 64) {
+				// 12 overflow the 8-slot table of the `small` variant, 80 the 64-slot table of the default configuration
+				for (int i = 0; i < 80; i++) { Op c = o; c.c = 0; c.join = (i % 10) != 0; c.idm = (i % 4 == 3) ? ID_NONE : (i % 2 ? ID_STR : ID_NUM); sc.ops.push_back(c); }
+				continue;
+			}
+			sc.ops.push_back(o);
+		}
 		sc.order_seed = order_seed; sc.end = end;
 		return sc;
 	}, rc::gen::resize(4, rc::gen::container<std::vector<int>>(rng(0, 3))), rc::gen::container<std::vector<Op>>(c07_op()), rng(0, 4), rng(0, 2), rc::gen::arbitrary<bool>());
@@ -64,6 +73,7 @@ int main(int argc, char **argv)
 		auto g = [&](const char *k) { auto it = vd.stat.find(k); return it == vd.stat.end() ? 0L : it->second; };
 		long conns = g("op_connect");
 		bool abnormal = vd.labels.count("end:reset") || vd.labels.count("end:hup") || vd.labels.count("over-long-message") || g("raw_bytes") > 0;
+		if (g("timers_created") >= 60) return true; // a routing table was driven to its limit
 		return conns >= 3 && abnormal && g("timers_created") >= 1;
 	};
 	c.setup = [](World &w) {
